@@ -18,6 +18,7 @@ CUR = ["A(0) S(0,1) T(0,1) W(0,1) R(1,0) Z", "A(0) A(1) S(0,1) T(0,1) Z", "S(0,1
 # a refused second peer must not disturb the exchange with the connected one, whatever state that is in
 CUR += ["A(0) W(0,1) A(1) R(0,0) Z", "A(0) W(0,1) A(1) R(0,1) W(0,1) R(1,0) Z", "A(0) R(0,1) A(1) W(0,1)", "A(0) S(0,1) A(1) T(0,1) Z", "A(0) S(0,0) S(1,1) A(1) T(0,1) T(0,1) Z",
         "A(0) Q(1) W(0,1) W(0,1) A(1) R(0,0) R(1,0) Z", "B(1) A(0) S(0,0) S(1,0) A(1) T(0,1) T(0,1) Z", "A(0) A(1) W(0,1) R(0,0) S(1,1) T(0,1) Z"]
+CUR += ["A(0) R(0,1) R(1,1) W(0,1) W(0,1) Z", "A(0) R(0,1) R(1,1) R(2,1) W(0,1) W(0,1) Z"]
 ALPHA = ["A(0)", "A(1)", "S(%d,1)", "S(%d,0)", "R(%d,0)", "R(%d,1)", "T(0,1)", "W(0,1)", "W(0,2)", "C(0)", "B(1)", "Q(1)"]
 
 
